@@ -13,3 +13,4 @@ from . import crsguard_c  # noqa: F401
 from . import densify_c  # noqa: F401
 from . import crs_c  # noqa: F401
 from . import outgeobox_c  # noqa: F401
+from . import rio_c  # noqa: F401
